@@ -58,7 +58,7 @@ func m7Subst(v ssa.Value, env m7Env) (ssa.Value, m7Env) {
 
 // m7HashArg finds the hashProto call whose first result is v (through in-package wrappers) and returns its
 // argument. status: 0 found, 1 unknown shape, 2 v is not a hashProto result.
-func m7HashArg(hp *ssa.Function, v ssa.Value, env m7Env, d int) (ssa.Value, m7Env, int) {
+func m7HashArg(hp *ssa.Function, fns []*ssa.Function, v ssa.Value, env m7Env, d int) (ssa.Value, m7Env, int) {
 	if d > 5 {
 		return nil, nil, 1
 	}
@@ -85,6 +85,16 @@ func m7HashArg(hp *ssa.Function, v ssa.Value, env m7Env, d int) (ssa.Value, m7En
 		return call.Call.Args[0], env, 0
 	}
 	body := an.StaticBody(&call.Call)
+	if body == nil && call.Call.StaticCallee() == nil {
+		// a call through a function value: positively "not hashProto" only if the callee is known
+		if call.Call.IsInvoke() {
+			return nil, nil, 1
+		}
+		body = m7FuncParamBody(fns, call.Call.Value, env)
+		if body == nil {
+			return nil, nil, 1
+		}
+	}
 	if body == nil {
 		return nil, nil, 2
 	}
@@ -101,7 +111,7 @@ func m7HashArg(hp *ssa.Function, v ssa.Value, env m7Env, d int) (ssa.Value, m7En
 		return nil, nil, 1
 	}
 	for i, rc := range cases {
-		a, e, st := m7HashArg(hp, rc.Vals[0], env2, d+1)
+		a, e, st := m7HashArg(hp, fns, rc.Vals[0], env2, d+1)
 		if st != 0 {
 			return nil, nil, st
 		}
@@ -115,6 +125,63 @@ func m7HashArg(hp *ssa.Function, v ssa.Value, env m7Env, d int) (ssa.Value, m7En
 		arg, argEnv = a, e
 	}
 	return arg, argEnv, 0
+}
+
+// m7FuncParamBody: the function value is a func-typed parameter of its function; when every static call site of
+// that function (in fns) passes the same function literal / function, that is the callee.
+func m7FuncParamBody(fns []*ssa.Function, fv ssa.Value, env m7Env) *ssa.Function {
+	v, _ := m7Subst(fv, env)
+	p, ok := v.(*ssa.Parameter)
+	if !ok {
+		if fs := an.FuncValues(v); len(fs) == 1 && an.InRepo(fs[0]) {
+			return fs[0]
+		}
+		return nil
+	}
+	idx := an.ParamIndex(p)
+	var body *ssa.Function
+	for _, g := range fns {
+		for _, ci := range an.Calls(g, func(cc *ssa.CallCommon) bool { return !cc.IsInvoke() && cc.StaticCallee() == p.Parent() }, false) {
+			if idx < 0 || idx >= len(ci.Common().Args) {
+				return nil
+			}
+			fs := an.FuncValues(ci.Common().Args[idx])
+			if len(fs) != 1 || !an.InRepo(fs[0]) || fs[0].Blocks == nil || (body != nil && body != fs[0]) {
+				return nil
+			}
+			body = fs[0]
+		}
+	}
+	return body
+}
+
+// m7Funcs: the source functions of the package plus the instances of its generic helpers that they call (the
+// instance has the concrete map / element types the generic body lacks).
+func m7Funcs(pkg *ssa.Package) []*ssa.Function {
+	fns := an.PkgFuncs(pkg)
+	seen := map[*ssa.Function]bool{}
+	for _, f := range fns {
+		seen[f] = true
+	}
+	for i := 0; i < len(fns); i++ {
+		for _, in := range an.Instrs(fns[i], false) {
+			ci, ok := in.(ssa.CallInstruction)
+			if !ok {
+				continue
+			}
+			g := ci.Common().StaticCallee()
+			if g == nil || seen[g] || g.Blocks == nil || g.Origin() == nil || g.Origin() == g || g.Origin().Pkg != pkg {
+				continue
+			}
+			for _, h := range an.Closure(g) {
+				if !seen[h] {
+					seen[h] = true
+					fns = append(fns, h)
+				}
+			}
+		}
+	}
+	return fns
 }
 
 func m7IsHashMap(t types.Type) bool {
@@ -186,7 +253,7 @@ func m7PairAt(hp *ssa.Function, fns []*ssa.Function, hash ssa.Value, henv m7Env,
 			return m7PairParam(hp, fns, h, e, val, venv, d)
 		}
 	}
-	arg, env, status := m7HashArg(hp, hash, henv, 0)
+	arg, env, status := m7HashArg(hp, fns, hash, henv, 0)
 	switch status {
 	case 2:
 		return 2, "the proposed hash is not hashProto of the proposed value"
@@ -241,7 +308,7 @@ func m7PairParam(hp *ssa.Function, fns []*ssa.Function, h ssa.Value, henv m7Env,
 func c14M7(c *rt.Ctx) {
 	c.Rule("M7", 2, func() {
 		hp := c.Fn("core/consensus/qbft.hashProto")
-		fns := an.PkgFuncs(c.SSAPkg("core/consensus/qbft"))
+		fns := m7Funcs(c.SSAPkg("core/consensus/qbft"))
 		nRecv := 0
 		for _, fn := range fns {
 			for _, up := range mapUpdates(fn, func(m ssa.Value) bool { return m7IsHashMap(m.Type()) }) {
@@ -250,7 +317,7 @@ func c14M7(c *rt.Ctx) {
 				}
 				nRecv++
 				k := an.FuncName(fn) + " key = hashProto(decoded value)"
-				arg, env, st := m7HashArg(hp, up.Key, nil, 0)
+				arg, env, st := m7HashArg(hp, fns, up.Key, nil, 0)
 				switch st {
 				case 2:
 					c.Bad(k, posOf(up), "the key of a received value is not the result of hashProto")
